@@ -66,6 +66,12 @@ func offlineFor(r *core.Rand, ident *rm.SigKey, transientType int) (rm.Offline, 
 }
 
 func signedLeaseSet2(r *core.Rand, sigType int, offline bool, transientType int) signedCase {
+	return signedLeaseSet2With(r, sigType, offline, transientType, false)
+}
+
+// signedLeaseSet2With: with forge set, the offline block is signed by a key that is NOT the identity's (the
+// content is still correctly signed by the transient key): a structure that must never verify.
+func signedLeaseSet2With(r *core.Rand, sigType int, offline bool, transientType int, forge bool) signedCase {
 	key, _ := rm.NewSigKey(sigType, r)
 	l, sh := gen.LeaseSet2(r)
 	l.Dest, _ = identWithKey(r, key, rm.IdentCryptoTypes)
@@ -76,7 +82,11 @@ func signedLeaseSet2(r *core.Rand, sigType int, offline bool, transientType int)
 	signer := key
 	var tk *rm.SigKey
 	if offline {
-		o, t := offlineFor(r, key, transientType)
+		authoriser := key
+		if forge {
+			authoriser, _ = rm.NewSigKey(sigType, r)
+		}
+		o, t := offlineFor(r, authoriser, transientType)
 		l.Offline, tk, signer = &o, t, t
 		l.Flags |= 1
 	}
@@ -87,6 +97,12 @@ func signedLeaseSet2(r *core.Rand, sigType int, offline bool, transientType int)
 }
 
 func signedMeta(r *core.Rand, sigType int, offline bool, transientType int) signedCase {
+	return signedMetaWith(r, sigType, offline, transientType, false)
+}
+
+// signedMetaWith: with forge set, the offline block is signed by a key that is NOT the identity's (the
+// content is still correctly signed by the transient key): a structure that must never verify.
+func signedMetaWith(r *core.Rand, sigType int, offline bool, transientType int, forge bool) signedCase {
 	key, _ := rm.NewSigKey(sigType, r)
 	l, sh := gen.MetaLeaseSet(r)
 	l.Dest, _ = identWithKey(r, key, rm.IdentCryptoTypes)
@@ -97,7 +113,11 @@ func signedMeta(r *core.Rand, sigType int, offline bool, transientType int) sign
 	signer := key
 	var tk *rm.SigKey
 	if offline {
-		o, t := offlineFor(r, key, transientType)
+		authoriser := key
+		if forge {
+			authoriser, _ = rm.NewSigKey(sigType, r)
+		}
+		o, t := offlineFor(r, authoriser, transientType)
 		l.Offline, tk, signer = &o, t, t
 		l.Flags |= 1
 	}
@@ -108,6 +128,12 @@ func signedMeta(r *core.Rand, sigType int, offline bool, transientType int) sign
 }
 
 func signedELS(r *core.Rand, sigType int, offline bool, transientType int) signedCase {
+	return signedELSWith(r, sigType, offline, transientType, false)
+}
+
+// signedELSWith: with forge set, the offline block is signed by a key that is NOT the identity's (the
+// content is still correctly signed by the transient key): a structure that must never verify.
+func signedELSWith(r *core.Rand, sigType int, offline bool, transientType int, forge bool) signedCase {
 	key, _ := rm.NewSigKey(sigType, r)
 	l, sh := gen.EncryptedLeaseSet(r)
 	l.SigType = uint16(sigType)
@@ -117,7 +143,11 @@ func signedELS(r *core.Rand, sigType int, offline bool, transientType int) signe
 	signer := key
 	var tk *rm.SigKey
 	if offline {
-		o, t := offlineFor(r, key, transientType)
+		authoriser := key
+		if forge {
+			authoriser, _ = rm.NewSigKey(sigType, r)
+		}
+		o, t := offlineFor(r, authoriser, transientType)
 		l.Offline, tk, signer = &o, t, t
 		l.Flags |= 1
 	}
